@@ -570,6 +570,24 @@ def p_array(ctx):
         ctx.decls.append(kind(ctx.uid("P"), b.fields))
 
 
+def p_reserved_tail(ctx):
+    """octets that hold nothing but reserved bits *after* a dynamically sized field (and after an earlier,
+    longer static run): their length guard is the only code a parser has to emit for them"""
+    rng = ctx.rng
+    for shape, tail in (("size", [8]), ("count", [8, 8]), ("size", [16]), ("payload", [8])):
+        b = Body(ctx)
+        b.scalar(rng.choice([16, 24, 32]))
+        b.align()
+        if shape == "payload":
+            add_payload(ctx, b, sized=True, modifier=0)
+        else:
+            add_array(ctx, b, 0, shapes=[shape], elems=[rng.choice(["u8", "scalar"])], allow_pad=False)
+        b.align()
+        for w in tail:
+            b.add_bits(A.reserved(w), w)
+        ctx.decls.append((A.struct if rng.random() < 0.3 and shape != "payload" else A.packet)(ctx.uid("P"), b.fields))
+
+
 def p_payload(ctx):
     rng = ctx.rng
     for _ in range(rng.randint(4, 6)):
@@ -826,13 +844,20 @@ def p_plain_chain(ctx):
 
     def flds(n):
         return [A.scalar(ctx.fid(), rng.choice([8, 16, 24, 32])) for _ in range(n)]
-    k0 = ctx.fid()
+    # two discriminators whose declaration order is not their alphabetical order; one child fixes them to
+    # (v1, v2), its sibling to (v2, v1): whoever pairs constraints with fields by position or by name gets
+    # the other child
+    k0 = ctx.uid("zk")
+    ka = ctx.uid("ak")
     base = ctx.uid("R")
-    ctx.decls.append(A.packet(base, [A.scalar(k0, 8)] + flds(rng.randint(1, 2)) + [A.payload()]))
+    ctx.decls.append(A.packet(base, [A.scalar(k0, 8), A.scalar(ka, 8)] + flds(rng.randint(1, 2)) + [A.payload()]))
+    v1, v2 = rng.sample(range(256), 2)
     k1 = ctx.fid()
     mid = ctx.uid("C")
     ctx.decls.append(A.packet(mid, [A.scalar(k1, 8)] + flds(rng.randint(1, 2)) + [A.payload()], parent_id=base,
-                              constraints=[A.constraint(k0, value=rng.randint(0, 255))]))
+                              constraints=[A.constraint(k0, value=v1), A.constraint(ka, value=v2)]))
+    ctx.decls.append(A.packet(ctx.uid("C"), flds(1), parent_id=base,
+                              constraints=[A.constraint(ka, value=v1), A.constraint(k0, value=v2)]))
     k2 = ctx.fid()
     v = rng.sample(range(256), 2)
     ctx.decls.append(A.packet(ctx.uid("C"), flds(rng.randint(1, 3)), parent_id=mid, constraints=[A.constraint(k1, value=v[0])]))
@@ -1212,7 +1237,7 @@ MATRIX_PARTS = 6
 
 
 PROFILE_FN = {
-    "bitfield": p_bitfield, "array": p_array, "payload": p_payload, "optional": p_optional,
+    "bitfield": p_bitfield, "array": p_array, "payload": lambda c: (p_payload(c), p_reserved_tail(c)), "optional": p_optional,
     "inherit": lambda c: (p_inherit(c), p_size_children(c), p_alias_chain(c), p_plain_chain(c)),
     "enum": p_enum, "groups": p_groups, "small": p_small, "mix": p_mix, "structs": p_structs,
     "hostile": p_hostile, "matrix": p_matrix,
